@@ -47,6 +47,9 @@ CHECKS = {
  "C16": ("exploration", "differential property-based testing (proptest) against the reference engine ark_bls12_377::Bls12_377: structured scalars -> points, sums, cofactor operations, pairings, multi-pairings (byte-identical serialisations), bilinearity / non-degeneracy laws, and valid + corrupted serialised points exchanged between the engines",
          "Generated-input search (3k cases quick, ~3 ms each); corruptions include flag bits, bit flips, coordinate = p + small, truncation.",
          "Trusts ark-bls12-377 0.4 and ark-ec's generic BLS12 engine (shared by both sides).", "5/C16"),
+ "C13": ("exploration", "model-based property testing (proptest): random gadget programs over a register file of circuit variables (all gadgets, allocation modes and operator forms) run in-circuit and natively step by step; stateful histories of forcing operations on lazy variables with constraint-count invariants",
+         "Generated-input search; after every step value() must equal the native output and the system be satisfied, a natively failing step must leave it unsatisfied; histories check monotone constraint counts, zero-cost re-forcing and order-independent first-force cost against a fresh reference synthesis.",
+         "Native = the library's own arkworks configuration (itself decided against the model by C01-C09); ark-r1cs-std and ark-relations trusted.", "5/C13"),
 }
 PENDING = {}
 
